@@ -380,9 +380,9 @@ func (e *SpecEnv) ident(name string) Value {
 				}
 				return x.load(e.st, pv, token.NoPos)
 			}
-			if f.fn.Parent() == nil {
-				break
-			}
+			// (frames of functions executed on their bodies inside the unit: the search goes on
+			// in the caller, so that a loop invariant of an inlined iteration method can speak
+			// about the variables its visitor updates)
 		}
 	}
 	// a postcondition may mention a named local of the function: its value at the return
@@ -416,6 +416,12 @@ func (e *SpecEnv) ident(name string) Value {
 	}
 	if e.pkg != nil {
 		if o := e.pkg.Scope().Lookup(name); o != nil {
+			return e.object(o)
+		}
+	}
+	// a spec of the unit evaluated inside an inlined function of another package
+	if x.unitFn != nil && x.unitFn.Pkg != nil && x.unitFn.Pkg.Pkg != e.pkg {
+		if o := x.unitFn.Pkg.Pkg.Scope().Lookup(name); o != nil {
 			return e.object(o)
 		}
 	}
